@@ -226,8 +226,14 @@ package lazy
 //@   ensures cache.stride == old(cache.stride)
 //@ trusted func containsNFAMatch
 //@ trusted func isCacheCleared
+// revAcc(d, h, end): "some match of the pattern ends at `end`" as the reverse automaton decides it (uninterpreted; the
+// searchers' links give it meaning). ASSUMED of the limited reverse scan: a start means yes, -1 means no (the automaton
+// died), -2 means undecided
+//@ uninterpreted spec func revAcc(d *DFA, h []byte, end int) bool
 //@ func (*DFA).SearchReverseLimited
 //@   props C05 C07
+//@   trust ensures result >= 0 ==> revAcc(d, haystack, end)
+//@   trust ensures result == -1 ==> !revAcc(d, haystack, end)
 //@   requires d != nil && d.pikevm != nil && cache != nil && cache.stride >= 0 && 0 <= start
 //@   modifies @searchState
 //@   ensures result >= -2
